@@ -802,3 +802,196 @@ def shrink_candidates(stmt):
                     yield stmt[:2] + (sel[:i] + (g,) + sel[i + 1:],) + stmt[3:]
     if src[0] == 'ref' and src[1][0] in ('query', 'set'):
         yield src[1]
+
+
+# ---- families of statements that differ in exactly one place ----------------------------------------------------------
+def substitute(node, old, new):
+    """replace every occurrence of the sub-tree `old` (also inside the origins of elements) by `new`"""
+    if node == old:
+        return new
+    if isinstance(node, tuple):
+        return tuple(substitute(a, old, new) for a in node)
+    return node
+
+
+def _fsites(f, path, ref):
+    tag = f[0]
+    if tag == 'lit':
+        yield path, ref, 'lit', f
+    elif tag == 'alias':
+        yield path, ref, 'alias', f
+        yield from _fsites(f[1], path + (1,), ref)
+    elif tag == 'expr':
+        yield path, ref, 'op', f
+        for i, a in enumerate(f[2:], start=2):
+            yield from _fsites(a, path + (i,), ref)
+
+
+def sites(node, path=(), ref=None):
+    """Places of a statement where a one-token change yields another well-formed statement:
+    (path, path of the innermost enclosing reference | None, sort, node).  The origins stored inside elements are not
+    visited (they repeat the FROM tree; `vary` keeps them consistent)."""
+    tag = node[0]
+    if tag == 'ref':
+        yield path, ref, 'ref', node
+        yield from sites(node[1], path + (1,), path)
+    elif tag == 'join':
+        if node[3] != 'cross':
+            yield path, ref, 'join', node
+        yield from sites(node[1], path + (1,), ref)
+        yield from sites(node[2], path + (2,), ref)
+        if node[4] is not None:
+            yield from _fsites(node[4], path + (4,), ref)
+    elif tag == 'set':
+        yield path, ref, 'set', node
+        yield from sites(node[1], path + (1,), ref)
+        yield from sites(node[2], path + (2,), ref)
+    elif tag == 'query':
+        yield path, ref, 'query', node
+        yield from sites(node[1], path + (1,), ref)
+        for i, f in enumerate(node[2]):
+            yield from _fsites(f, path + (2, i), ref)
+        if node[3] is not None:
+            yield from _fsites(node[3], path + (3,), ref)
+        for i, f in enumerate(node[4]):
+            yield from _fsites(f, path + (4, i), ref)
+        if node[5] is not None:
+            yield from _fsites(node[5], path + (5,), ref)
+        for i, o in enumerate(node[6]):
+            yield path + (6, i), ref, 'ord', o
+            yield from _fsites(o[1], path + (6, i, 1), ref)
+
+
+def _put(stmt, path, ref, new_node):
+    """the statement with the node at `path` replaced; every copy of the enclosing reference (the origins of the
+    elements addressing it) follows"""
+    mutated = dslgen.replace(stmt, path, new_node)
+    if ref is None:
+        return mutated
+    return substitute(stmt, dslgen.get(stmt, ref), dslgen.get(mutated, ref))
+
+
+_SWAPS = {**{o: CMP for o in CMP}, **{o: ARITH for o in ARITH}, 'and': ('and', 'or'), 'or': ('and', 'or'),
+          'isnull': ('isnull', 'notnull'), 'notnull': ('isnull', 'notnull'), 'min': ('min', 'max', 'sum'),
+          'max': ('min', 'max', 'sum'), 'sum': ('min', 'max', 'sum')}
+#: literal values a literal is varied over (-1 and -2 have equal Python hashes: a statement cache keyed by hash alone would
+#: confuse them; the other colliding pair, 0 and 2**61-1, overflows the engines' and pandas' 64-bit arithmetic when it
+#: lands in an arithmetic expression: it is only used in a comparison of the hand-picked histories)
+INT_VARIANTS = (0, 1, 2, 3, 4, 5, 6, 7, -1, -2, 10)
+#: string literals: also values that differ in case / trailing blank only (a key normalising the text would confuse them)
+STR_VARIANTS = STR_LITS + ('A', 'a ', 'ZZ')
+
+
+def vary(stmt, rng, site, limit: int = 3) -> list:
+    """statements that differ from `stmt` at the site only: other literal values / operators of the same sort / join
+    kinds / set kinds / the opposite direction / another reference name / another or swapped alias"""
+    path, ref, sort, node = site
+    out = []
+    if sort == 'lit':
+        kind, value = node[1]
+        if kind == 'int':
+            pool = [v for v in INT_VARIANTS if v != value]
+            twin = {-1: -2, -2: -1}.get(value)
+            picks = rng.sample(pool, limit)
+            if twin is not None and twin not in picks:
+                picks[0] = twin
+            out = [_put(stmt, path, ref, ('lit', ('int', v))) for v in picks]
+        elif kind == 'str':
+            picks = rng.sample([v for v in STR_VARIANTS if v != value], limit)
+            if value.upper() != value and value.upper() in STR_VARIANTS and value.upper() not in picks:
+                picks[0] = value.upper()
+            out = [_put(stmt, path, ref, ('lit', ('str', v))) for v in picks]
+        elif kind == 'bool':
+            out = [_put(stmt, path, ref, ('lit', ('bool', not value)))]
+    elif sort == 'op':
+        cands = [o for o in _SWAPS.get(node[1], ()) if o != node[1]]
+        if node[1] in ('min', 'max', 'sum') and kind6(node[2]) != 'integer':
+            cands = [o for o in cands if o != 'sum']
+        rng.shuffle(cands)
+        out = [_put(stmt, path, ref, node[:1] + (o,) + node[2:]) for o in cands[:limit]]
+    elif sort == 'join':
+        cands = [k for k in dslgen.JOIN_KINDS[:4] if k != node[3]]
+        out = [_put(stmt, path, ref, node[:3] + (k,) + node[4:]) for k in cands[:limit]]
+    elif sort == 'set':
+        out = [_put(stmt, path, ref, node[:3] + (k,)) for k in dslgen.SET_KINDS if k != node[3]]
+    elif sort == 'ord':
+        out = [_put(stmt, path, ref, node[:2] + ('desc' if node[2] == 'asc' else 'asc',))]
+    elif sort == 'ref':
+        used = {s[2] for s in _all_refs(stmt)} | set(PHYS.values())
+        names = [n for n in REF_NAMES if n not in used]
+        if names:
+            out = [substitute(stmt, node, node[:2] + (rng.choice(names),))]
+    elif sort == 'alias':
+        if ref is None and len(path) == 2 and path[0] == 2 and stmt[0] == 'query':  # an output column of the statement
+            taken = {dslgen.name_of(f) for f in stmt[2]}
+            names = [n for n in ALIASES if n not in taken]
+            if names:
+                out = [_put(stmt, path, ref, node[:2] + (rng.choice(names),))]
+    elif sort == 'query':
+        # two aliased output columns of the same kind trade their names: whoever addresses them by name gets the other
+        sel = node[2]
+        pairs = [(i, j) for i in range(len(sel)) for j in range(i + 1, len(sel))
+                 if sel[i][0] == 'alias' and sel[j][0] == 'alias' and sel[i][2] != sel[j][2] and _same_kind(sel[i], sel[j])]
+        if pairs:
+            i, j = rng.choice(pairs)
+            swapped = list(sel)
+            swapped[i], swapped[j] = sel[i][:2] + (sel[j][2],), sel[j][:2] + (sel[i][2],)
+            out = [_put(stmt, path, ref, node[:2] + (tuple(swapped),) + node[3:])]
+    return [s for s in out if s != stmt]
+
+
+def _same_kind(a, b) -> bool:
+    try:
+        return kind6(a) == kind6(b)
+    except ValueError:
+        return False
+
+
+def _all_refs(node):
+    if isinstance(node, tuple):
+        if node and node[0] == 'ref' and len(node) == 3:
+            yield node
+        for a in node:
+            yield from _all_refs(a)
+
+
+def family(stmt, rng, sorts=None, limit: int = 3) -> list:
+    """[(sort, [stmt, variant...])]: for every site (of the sorts asked for) the statement and its one-place variants"""
+    out = []
+    for site in sites(stmt):
+        if sorts is not None and site[2] not in sorts:
+            continue
+        try:
+            members = vary(stmt, rng, site, limit)
+        except (ValueError, IndexError):
+            continue
+        if members:
+            out.append((site[2], [stmt] + members))
+    return out
+
+
+#: windows a LIMIT / OFFSET family ranges over
+WINDOWS = ((1, 0), (2, 0), (3, 0), (2, 1), (3, 1), (1, 2), (2, 2), (3, 2), (100, 0), (100, 1), (100, 3), (0, 0), (1, 5))
+
+
+def limit_family(rng, nested: bool = False) -> list:
+    """statements that differ in LIMIT / OFFSET only, totally ordered by the unique key (so that each denotes exactly
+    one result): directly, or inside a nested statement that the outer one reads through a reference"""
+    t = rng.choice(CATALOG)
+    src = t if rng.random() < 0.6 else ('ref', t, rng.choice(REF_NAMES))
+    feats = avail(src)
+    ident = next(e for e, _ in feats if e[2] == 'id')
+    others = [e for e, _ in feats if e[2] != 'id']
+    sel = (ident,) + tuple(rng.sample(others, rng.randint(1, 2)))
+    pre = None
+    if rng.random() < 0.4:
+        pre = ('expr', rng.choice(('gt', 'ge', 'ne')), ident, ('lit', ('int', rng.choice((0, 1, 2, 3)))))
+    order = (('ord', ident, rng.choice(('asc', 'desc'))),)
+    out = []
+    for count, offset in rng.sample(WINDOWS, 4):
+        q = ('query', src, sel, pre, (), None, order, ('rows', count, offset))
+        if nested:
+            r = ('ref', q, 'sub')
+            q = ('query', r, tuple(('elem', r, dslgen.name_of(f)) for f in sel), None, (), None, (), None)
+        out.append(q)
+    return out
